@@ -801,6 +801,7 @@ func startServers(serverList []Server, inst *Instance, restartFds map[string]res
 					}
 					ln, err = net.FileListener(file)
 					if err != nil {
+						file.Close() // (the copy made for the hand-over; nobody else knows of it)
 						return fmt.Errorf("getting file listener: %v", err)
 					}
 					err = file.Close()
@@ -816,6 +817,7 @@ func startServers(serverList []Server, inst *Instance, restartFds map[string]res
 					}
 					pc, err = net.FilePacketConn(file)
 					if err != nil {
+						file.Close()
 						return fmt.Errorf("getting file packet connection: %v", err)
 					}
 					err = file.Close()
